@@ -164,9 +164,12 @@ def run_driver(ctx, driver, profile, tracefile, seed, args=None, timeout=900, en
     shutil.rmtree(wd, ignore_errors=True)
     died = None
     if rc != 0:
-        tail = open(errp, errors='replace').read()[-6000:]
-        # an engine death inside an API call is real-code behaviour: append a "died" event
-        engine = ('xixi-kv' in tail) and ('fatal error' in tail or 'panic' in tail or 'SIGBUS' in tail or 'SIGSEGV' in tail or 'signal' in tail)
+        full = open(errp, errors='replace').read()
+        # an engine death inside an API call is real-code behaviour: append a "died" event.
+        # The Go runtime prints the reason and then the faulting goroutine first.
+        pos = min([p for p in (full.find('fatal error'), full.find('panic:'), full.find('[signal ')) if p >= 0] or [-1])
+        tail = full[max(0, pos - 200):pos + 8000] if pos >= 0 else full[-6000:]
+        engine = pos >= 0 and ('XiXi-2024/xixi-kv' in tail or '/repo/' in tail)
         if not engine:
             raise Infra('driver %s failed rc=%d without an engine frame:\n%s' % (profile, rc, tail[-2000:]))
         with open(tracefile, 'a') as f:
